@@ -52,6 +52,13 @@ func init() {
 		{"wiring.RemoveCTPoison", soleReturn(x, "RemoveCTPoison", "removeCTPoisonReturns")},
 		{"wiring.BuildPrecertTBS.first", firstAssign(x, "BuildPrecertTBS", "buildPrecertTBSFirst")},
 		{"wiring.removeExtension.edit", assignsTo(x, "removeExtension", "tbs.Extensions", "removeExtensionEdit")},
+		// the chain-length guards of the two leaf builders (n = len(chain))
+		{"leaf.precert.guard2", condKernel(se, "MerkleTreeLeafFromChain", []string{"len(chain)", "2"}, "leafChainTooShort", "(n : Int)",
+			Spec{Repl: map[string]string{"len(chain)": "n"}})},
+		{"leaf.precert.guard3", condKernel(se, "MerkleTreeLeafFromChain", []string{"len(chain)", "3"}, "leafPreIssuerChainTooShort", "(n : Int)",
+			Spec{Repl: map[string]string{"len(chain)": "n"}})},
+		{"leaf.embedded.guard2", condKernel(se, "MerkleTreeLeafForEmbeddedSCT", []string{"len(chain)", "2"}, "leafEmbeddedChainTooShort", "(n : Int)",
+			Spec{Repl: map[string]string{"len(chain)": "n"}})},
 		{"wiring.leaf.precert", callsOf(se, "MerkleTreeLeafFromChain", "x509.", "leafFromChainCalls")},
 		{"wiring.leaf.embedded", callsOf(se, "MerkleTreeLeafForEmbeddedSCT", "x509.", "leafForEmbeddedCalls")},
 	}})
